@@ -12,6 +12,7 @@ from harness import lib
 DIFF_NS = "http://namespaces.shoobx.com/diff"
 TAGS = ["p", "b", "i", "img", "span", "div"]
 PUA_LO, PUA_HI = 0xE000, 0xF8FF
+FINDING_PUA = "pua-char-in-document"   # key in /verif/known_findings.json
 
 # ----------------------------------------------------------------------------
 # trees as plain data: [tag, [[k, v]...], text|None, tail(str), [kids]]
@@ -433,10 +434,28 @@ def gen_scenarios(run, rng):
     wb = ["b", [], None, "", [["i", [], None, "", []]]]
     scs.append({"kind": "history", "tt": ["p"], "fmt": ["b"], "witness": "C11_roundtrip_ph_inv_only_refuted",
                 "steps": [["get", wb, 1, None], ["get", wb, 0, 0xE007], ["do", ["p", [], None, "", [wb]]], ["table"], ["undo", 0]]})
-    # the witnesses of C11_roundtrip_any_document_refuted (private-use characters in the document)
-    for ch in ("\ue001", "\ue002"):
-        scs.append({"kind": "history", "tt": ["p"], "fmt": ["b"], "witness": "C11_roundtrip_any_document_refuted",
-                    "steps": [["do", ["p", [], "a" + ch + "b", "", []]], ["table"], ["undo", 0]]})
+    # (P) known finding "pua-char-in-document": documents containing characters of the placeholder range.  A small
+    # labelled stream that runs every time: the two witnesses of C11_roundtrip_any_document_refuted first, then a few
+    # seeded ones.  Model and implementation are compared as for every scenario; the round-trip oracle's failures on
+    # these (and only these) inputs are reported under the finding key.
+    def pua_doc(ch):
+        return ["r", [], None, "", [["p", [], "a" + ch + "b", "", []]]]
+    pua = [pua_doc("\ue001"), pua_doc("\ue002"), ["p", [], "a\ue001b", "", []], ["p", [], "a\ue002b", "", []]]
+    for _ in range(8):
+        t = gen_tree(rng, 2, root=True)
+        t[0] = "p"
+        tgt = rng.choice([t] + t[4])
+        ch = chr(rng.choice([0xE001, 0xE002, 0xE003, 0xE004, 0xE006, 0xE007, 0xE008]))
+        if rng.random() < 0.7:
+            tgt[2] = (tgt[2] or "") + ch + rng.choice(["", "z"])
+        else:
+            tgt[3] = (tgt[3] or "") + ch if tgt is not t else ""
+            if tgt is t:
+                tgt[2] = ch
+        pua.append(t)
+    for t in pua:
+        scs.append({"kind": "pua", "tt": ["p"], "fmt": ["b"], "oracle": "roundtrip", "finding_key": FINDING_PUA,
+                    "witness": "C11_roundtrip_any_document_refuted", "steps": [["do", t], ["table"], ["undo", 0]]})
     return scs, nexh
 
 
@@ -556,7 +575,7 @@ def main(run):
     ok, pinfo = lib.proof_stage(run, "C11")
     run.log("proof stage:", "ok" if ok else "BROKEN %s" % pinfo.get("failed"))
     scs, nexh = gen_scenarios(run, rng)
-    traces, viols, skipped = [], [], 0
+    traces, viols, known, skipped = [], [], [], 0
     for sc in scs:
         try:
             _, _, tr = run_impl(sc)
@@ -566,9 +585,17 @@ def main(run):
         traces.append(tr)
         if sc.get("oracle") or sc["kind"] in ("history",):
             why = oracle(sc)
-            if why:
+            if why and sc.get("finding_key") and all(has_pua(st[1]) for st in sc["steps"] if st[0] == "do"):
+                # the document itself contains placeholder-range characters: the known finding, not a new one
+                # (lib prints KNOWN-FINDING while the entry in known_findings.json is open, VIOLATION otherwise)
+                known.append({"what": why, "replay": {"scenario": sc, "finding_key": sc["finding_key"]}})
+            elif why:
                 viols.append({"what": why, "replay": {"scenario": sc}})
     viols.sort(key=lambda v: len(json.dumps(v["replay"])))
+    for v in known[:1]:
+        run.violation(v["what"], v["replay"])
+    run.coverage["known_finding_stream"] = {"key": FINDING_PUA, "inputs": sum(1 for sc in scs if sc["kind"] == "pua"),
+                                            "round_trip_failures_on_impl": len(known)}
     idx = [i for i, tr in enumerate(traces) if tr is not None and modelable(tr)]
     skipped = len(scs) - len(idx)
     bad, log = [], ""
@@ -659,4 +686,6 @@ def replay(run, path):
         print("implementation raised", type(ex).__name__, ex)
     why = oracle(sc)
     print("->", why or "property holds on this input")
+    if why and d.get("finding_key"):
+        print("(known finding %s)" % d["finding_key"])
     return 1 if why else 0
